@@ -92,6 +92,8 @@ def plan(tier):
     names = sorted(specmodel.load())
     for i in range(4):
         out.append({"kind": "file_cvals", "types": names[i::4], "mapped": i == 0})
+    # the stock classes once more, in a process in which a program has derived classes of its own from them
+    out.append({"kind": "after_user_subclasses"})
     return out
 
 
@@ -395,6 +397,21 @@ def run_shard(ctx, desc):
 
     if desc.get("kind") == "file_cvals":
         run_file_cvals(ctx, desc)
+        return
+    if desc.get("kind") == "after_user_subclasses":
+        from rv.controller import Controller
+
+        classes = dict(m.MODULE_CLASSES)
+        for cls in list(classes.values()):
+            type("Plain" + cls.__name__, (cls,), {})
+            type("My" + cls.__name__, (cls,), {"extra_knob": Controller((0, 10), 5)})
+        for ax in axes():
+            name, cname, kind, uctl, unit, lo, hi = ax
+            if kind in ("range", "compact", "no_offset", "dependent"):
+                span = hi - lo
+                for seg in ((lo, lo + 1, 1), (hi, hi + 1, 1), (lo + span // 2, lo + span // 2 + 1, 1)):
+                    run_axis(ctx, classes, ax, seg)
+        ctx.label("after_user_subclasses")
         return
     classes = dict(m.MODULE_CLASSES)
     for ax, seg in desc["items"]:
